@@ -31,8 +31,9 @@ RULE = (
 )
 ASSUMPTIONS = [
     "the keyword set of a dialect is the union of the words recorded in vlib/sql_keywords.json (taken from the "
-    "dialects at a known-good state) and the words the running code lists (dialect.keywords); membership is decided "
-    "here by lower-casing the name, not by calling is_keyword",
+    "dialects at a known-good state), the words the running code lists (dialect.keywords) and 40 words every SQL "
+    "dialect reserves (select, from, where, order, ...); membership is decided here by lower-casing the name, not by "
+    "calling is_keyword",
     "capacity table: T-SQL bit/tinyint/smallint/int/bigint/decimal(p<=38)/money; DB2 smallint/integer/bigint/"
     "decimal(p<=31); Oracle int=number(38), number(p<=38, s); ANSI smallint/int/bigint of implementation-defined "
     "size (never judged), decimal(p) holds p digits",
@@ -56,8 +57,14 @@ USABLE_KEYWORDS = {}
 # to the ANSI one); words the running code adds are honoured too, so extending a list raises no alarm.
 with open(os.path.join(os.path.dirname(os.path.dirname(os.path.abspath(__file__))), "vlib", "sql_keywords.json")) as _f:
     _RECORDED = json.load(_f)
+# Words every SQL dialect reserves (SQL-92 core: statement and clause words, set and comparison operators); they are
+# keywords of each dialect whatever its list in the code says, so a list entry lost to a typo is noticed.
+CORE_RESERVED = ("select from where group order by having table create drop alter union null not and or in is like "
+                 "between as on into values set distinct all any exists check default unique grant with to for of "
+                 "insert update delete").split()
 for _name in DIALECT_NAMES:
-    _words = sorted(set(str(w) for w in sql.SQL_NAME_TO_DIALECT_MAP[_name].keywords) | set(_RECORDED.get(_name, [])))
+    _words = sorted(set(str(w) for w in sql.SQL_NAME_TO_DIALECT_MAP[_name].keywords) | set(_RECORDED.get(_name, []))
+                    | set(CORE_RESERVED))
     KEYWORDS[_name] = frozenset(w.lower() for w in _words)
     USABLE_KEYWORDS[_name] = [w for w in _words if _IDENTIFIER.match(w)]
 
@@ -439,7 +446,7 @@ def names(draw, dialect_name):
     if kind == "plain":
         name = draw(st.from_regex(r"[A-Za-z][A-Za-z0-9_]{0,7}", fullmatch=True))
         return name, "plain"
-    word = draw(st.sampled_from(USABLE_KEYWORDS[dialect_name]))
+    word = draw(st.one_of(st.sampled_from(USABLE_KEYWORDS[dialect_name]), st.sampled_from(CORE_RESERVED)))
     if kind == "near":
         how = draw(st.sampled_from(["suffix", "prefix", "cut", "double"]))
         if how == "suffix":
